@@ -56,17 +56,19 @@ private:
     on_message_cb_t on_message_cb;
     std::unordered_set<std::string> dependencies;
 
-    std::string value_ref_to_enumerator(const std::string_view value_ref) const
+    std::string value_ref_to_enumerator(const std::string_view value_ref)
     {
         const auto parsed = utils::parse_value_ref(value_ref);
         const auto& e = utils::get_schema_encoding_as<sbe::enumeration>(
             *schema, parsed.enum_name);
+        // the enum can be used only via `valueRef`
+        dependencies.emplace(e.name);
 
         return fmt::format(
             "{}::{}", ctx_manager->get(e).public_type, parsed.enumerator);
     }
 
-    std::string value_ref_to_enum_value(const std::string_view value_ref) const
+    std::string value_ref_to_enum_value(const std::string_view value_ref)
     {
         return fmt::format(
             "::sbepp::to_underlying({})", value_ref_to_enumerator(value_ref));
